@@ -44,6 +44,56 @@ type Spec struct {
 	// Warm > 0: the reader a checkpoint is handed to is not brand-new but has already read Warm messages
 	// (the patcher's reader has read both containers before it is resumed from a checkpoint).
 	Warm int `json:"warm,omitempty"`
+	// Twin: after the main stream (whose writer is then closed a second time, as a deferred Close after an
+	// explicit one does), two more streams with the same compression setting are written at the same time -
+	// interleaved, like the patch and signature wires of WritePatch - the second one with the messages in
+	// reverse order; each must read back as its own sequence.
+	Twin bool `json:"twin,omitempty"`
+}
+
+// writeStream frames msgs under comp; the returned closer closes the compressed context
+func openStream(comp h.Comp) (*bytes.Buffer, *wire.WriteContext, error) {
+	buf := new(bytes.Buffer)
+	raw := wire.NewWriteContext(buf)
+	if err := raw.WriteMagic(pwr.PatchMagic); err != nil {
+		return nil, nil, err
+	}
+	if err := raw.WriteMessage(&pwr.PatchHeader{Compression: comp.Settings()}); err != nil {
+		return nil, nil, err
+	}
+	cw, err := pwr.CompressWire(raw, comp.Settings())
+	return buf, cw, err
+}
+
+func readAll(stream []byte, like []Msg, order func(i int) int) ([]proto.Message, error) {
+	src := h.Source(stream)
+	if _, err := src.Resume(nil); err != nil {
+		return nil, err
+	}
+	rr := wire.NewReadContext(src)
+	if err := rr.ExpectMagic(pwr.PatchMagic); err != nil {
+		return nil, err
+	}
+	hd := &pwr.PatchHeader{}
+	if err := rr.ReadMessage(hd); err != nil {
+		return nil, err
+	}
+	r, err := pwr.DecompressWire(rr, hd.Compression)
+	if err != nil {
+		return nil, err
+	}
+	var out []proto.Message
+	for i := range like {
+		m := empty(like[order(i)])
+		if err := r.ReadMessage(m); err != nil {
+			return out, fmt.Errorf("message %d: %w", i, err)
+		}
+		out = append(out, m)
+	}
+	if err := r.ReadMessage(&pwr.SyncOp{}); errors.Cause(err) != io.EOF {
+		return out, fmt.Errorf("after the last message: %v instead of io.EOF", err)
+	}
+	return out, nil
 }
 
 func body(m Msg, i int) []byte {
@@ -128,6 +178,46 @@ func check(s Spec) h.Result {
 		return h.Failf("closing the writer: %v", err)
 	}
 	stream := buf.Bytes()
+	if s.Twin {
+		if s.Comp.Algo != 1 {
+			cw.Close() // a second Close of a finished stream (not for cbrotli, whose C encoder is gone by then)
+		}
+		b1, w1, err1 := openStream(s.Comp)
+		b2, w2, err2 := openStream(s.Comp)
+		if err1 != nil || err2 != nil {
+			return h.Failf("opening two more streams: %v %v", err1, err2)
+		}
+		n := len(sent)
+		for i := 0; i < n; i++ {
+			if err := w1.WriteMessage(sent[i]); err != nil {
+				return h.Failf("twin stream 1: %v", err)
+			}
+			if err := w2.WriteMessage(sent[n-1-i]); err != nil {
+				return h.Failf("twin stream 2: %v", err)
+			}
+		}
+		if err := w1.Close(); err != nil {
+			return h.Failf("closing twin stream 1: %v", err)
+		}
+		if err := w2.Close(); err != nil {
+			return h.Failf("closing twin stream 2: %v", err)
+		}
+		cl = append(cl, "writer:two-streams-open-at-once-after-a-double-close")
+		for k, tw := range []struct {
+			b     *bytes.Buffer
+			order func(int) int
+		}{{b1, func(i int) int { return i }}, {b2, func(i int) int { return n - 1 - i }}} {
+			got, err := readAll(tw.b.Bytes(), s.Msgs, tw.order)
+			if err != nil {
+				return h.Result{Fail: fmt.Sprintf("stream %d of two written at the same time with the same compression setting does not read back: %v", k+1, err), Classes: cl}
+			}
+			for i := range got {
+				if !proto.Equal(got[i], sent[tw.order(i)]) {
+					return h.Result{Fail: fmt.Sprintf("stream %d of two written at the same time with the same compression setting: message %d read back differs from what was written to THIS stream", k+1, i), Classes: cl}
+				}
+			}
+		}
+	}
 	open := func() (*wire.ReadContext, error) {
 		src := h.Source(stream)
 		if _, err := src.Resume(nil); err != nil {
@@ -351,6 +441,7 @@ var prop = h.Prop[Spec]{
 		if rapid.IntRange(0, 2).Draw(t, "warm-second-reader") == 0 {
 			s.Warm = rapid.IntRange(1, 3).Draw(t, "warm")
 		}
+		s.Twin = rapid.IntRange(0, 4).Draw(t, "twin-streams") == 0
 		return s
 	},
 	Check: check,
